@@ -146,6 +146,7 @@ Lemma data_alloc_tx_spec a t n regs cnt a' t' :
   DataInv a -> 0 < n < 2^32 -> n <= data_avail a ->
   data_alloc_regions a t n = (regs, cnt, a', t') ->
   exists regs1 regs2,
+    regs = regs1 ++ regs2 /\
     wfl 2 regs1 /\
     (forall id, inl id regs1 <-> inl id (fregions (a_free (data a))) /\ ~ inl id (fregions (a_free (data a')))) /\
     (forall id, inl id (fregions (a_free (data a'))) -> inl id (fregions (a_free (data a)))) /\
@@ -169,6 +170,7 @@ Proof.
   injection E as <- <- <- <-.
   cbn [data a_free a_end meta metaTotal maxPages pageSize flRoot flPages set_meta set_data
        tdata tmeta moveToMeta st_ovf_alloc tx_stats tx_with ta_new ta_allocated t_allocated t_new t_end].
+  split; [reflexivity|].
   split; [exact Wr1|].
   split.
   { intros id. split.
@@ -259,7 +261,7 @@ Proof.
     { destruct (data_alloc_regions_spec a t n regs cnt a' t' ID Hn E) as [Hfail _].
       destruct (Hfail Hlt) as (_ & _ & -> & ->). constructor; assumption. }
     destruct (data_alloc_tx_spec a t n regs cnt a' t' ID Hn ltac:(lia) E)
-      as (regs1 & regs2 & W1 & H1 & Hsub & H2 & HA & HN & HG & ID' & St & (Tm1 & Tm2 & Tm3 & Tm4)).
+      as (regs1 & regs2 & _ & W1 & H1 & Hsub & H2 & HA & HN & HG & ID' & St & (Tm1 & Tm2 & Tm3 & Tm4)).
     constructor.
     + exact ID'.
     + congruence.
